@@ -76,7 +76,7 @@ def run(ctx):
     cg = repo.callgraph()
     ex = exceptions(repo)
     ctx.decided = ['C08.1 one read, one outcome per iteration', 'C08.2 pass-through text is the line, only for non-messages',
-                   'C08.3 loop exits', 'C08.4 --supress affects only pass-through', 'C08.5 notices after the last line', 'C08.6 synchronous output chain']
+                   'C08.3 loop exits', 'C08.4 --supress affects only pass-through', 'C08.5 notices after the last line', 'C08.6 synchronous output chain', 'C08.7 the item shown for a message is the whole decoded message']
     ctx.undecided = ['OS-level buffering of print', 'behaviour after the deliberate stop-decoding latch (internal error)']
     f_pa = repo.func('Parser.parse_all')
     f_hm = repo.func('Parser.handle_message')
@@ -151,6 +151,22 @@ def run(ctx):
         ctx.check((val is True and inh is None) or (val is False and inh is not None and norm(inh.type) != 'RuntimeError'), 'C08.1', 'latch:%s' % norm(n), f_pa.loc(n),
                   'decoding starts enabled and is disabled only by the internal-error handler', 'decoding latch is written as %s %s' % (norm(n), 'inside a handler' if inh is not None else 'outside handlers'))
 
+    # a message line must be decoded, never passed through: the acceptance part of C01 (language inclusion of the printer's
+    # lines in what message() accepts) is a clause of C08 as well
+    from ..report import Ctx as _Ctx
+    from . import c01 as _c01
+    sub = _Ctx('C01', repo, tier=ctx.tier, quiet=True)
+    _c01.run(sub)
+    nacc = 0
+    for o in sub.obligations:
+        if o['rule'] == 'C01.6':
+            nacc += 1
+    for v in sub.violations:
+        if v['rule'] == 'C01.6':
+            ctx.violation('C08.1', 'message-line-not-decoded:' + v['key'], v['site'], 'a Wayland message line is not decoded but passed through as text (hidden by --supress): ' + v['msg'], v['witness'])
+    if not [v for v in sub.violations if v['rule'] == 'C01.6']:
+        ctx.ok('C08.1', f_msg.loc(), 'message-lines-decoded', 'every sent/received message line of the printer language takes a decoding path of message() (%d obligations of C01.6)' % nacc)
+    ctx.floor('C08.1', nacc, 4, 'line acceptance obligations')
     # ---- C08.2 -----------------------------------------------------------------------------------------------
     handlers = [n for n in f_pa.body_nodes() if isinstance(n, ast.ExceptHandler)]
     pt = [h for h in handlers if any(isinstance(x, ast.Call) and norm(x.func) == 'self.out.unprocessed' for s in h.body for x in ast.walk(s))]
@@ -294,6 +310,51 @@ def run(ctx):
             ctx.check(len(sinks) == 1 and not p.decisions and norm(sinks[0].args[0]).startswith('string'), 'C08.6', 'stream:%s:emits-now' % c.name, m.loc(),
                       '%s emits the text immediately (no buffer a later call would drain)' % c.name, '%s.override_write is %s' % (c.name, [e.text[:50] for e in p.events if e.kind == 'call']))
     ctx.floor('C08.6', nimpl, 2, 'instantiated output streams')
+    # ---- C08.7 the item shown for a message is the whole decoded message --------------------------------------------------------
+    f_str = repo.func('message.Message.__str__')
+    nstr = 0
+    for p in paths_of(repo, f_str):
+        if p.outcome[0] != 'return':
+            continue
+        sents = [v for a, v in p.decisions if a.text == 'self.sent']
+        if len(set(sents)) > 1:
+            continue            # infeasible: the flag does not change while printing
+        nstr += 1
+        t = norm(p.outcome[1])
+        i1 = t.find('str(self.obj)')
+        i2 = t.find("'.' + self.name")
+        i3 = t.find('.join([str(i) for i in self.args])')
+        ctx.check(0 <= i1 < i2 < i3 and t.count('self.args') == 1, 'C08.7', 'display:target-name-all-args', f_str.loc(), 'a message is printed as target, .name and all of its arguments in order',
+                  'Message.__str__ is %s' % t[:200])
+        if sents:
+            arrow = "'→ '" in t
+            back = "' ↲'" in t
+            ctx.check(arrow == sents[0] and back == (not sents[0]), 'C08.7', 'display:direction-marks:%s' % sents[0], f_str.loc(), 'a sent message carries the → mark, a received one the ↲ mark',
+                      'direction marks for sent=%s: arrow=%s return-mark=%s' % (sents[0], arrow, back))
+    ctx.floor('C08.7', nstr, 4, 'feasible paths of Message.__str__')
+    f_mshow = repo.func('message.Message.show')
+    for p in paths_of(repo, f_mshow):
+        sh = [e for e in p.events if e.kind == 'call' and e.ftext == 'out.show']
+        ctx.check(len(sh) == 1 and sh[0].text.endswith("+ ': ' + str(self))"), 'C08.7', 'display:line-is-message', f_mshow.loc(), 'the line shown is time, connection name and the message itself, once',
+                  'Message.show prints %s' % [e.text[:120] for e in sh])
+    vals = {'Arg.Int.value_to_str': 'str(self.value)', 'Arg.Float.value_to_str': 'str(self.value)', 'Arg.String.value_to_str': 'repr(self.value)', 'Arg.Fd.value_to_str': "'fd ' + str(self.value)",
+            'Arg.Object.value_to_str': 'str(self.obj)', 'Arg.Unknown.value_to_str': None, 'Arg.Array.value_to_str': None, 'Arg.Null.value_to_str': "'null ' + "}
+    for q, want in vals.items():
+        f = repo.func(q)
+        for p in paths_of(repo, f):
+            if p.outcome[0] != 'return':
+                ctx.violation('C08.7', 'display:%s:no-value' % q, f.loc(), '%s does not return a string on path %s' % (q, p.describe()[:80]))
+                continue
+            t = norm(p.outcome[1])
+            if want is not None:
+                ctx.check(want in t, 'C08.7', 'display:%s' % q, f.loc(), '%s shows %s' % (q.split('.')[1], want), '%s shows %s' % (q, t[:100]))
+            if q == 'Arg.Object.value_to_str':
+                isnew = [v for a, v in p.decisions if a.text == 'self.is_new']
+                ctx.check(bool(isnew) and ("'new '" in t) == isnew[0], 'C08.7', 'display:new-mark:%s' % (isnew[0] if isnew else '?'), f.loc(), 'a new id is marked `new`, other object arguments are not')
+            if q == 'Arg.Array.value_to_str':
+                none = [v for a, v in p.decisions if a.text == 'self.values is None']
+                if none and not none[0]:
+                    ctx.check('.join([str(v) for v in self.values])' in t, 'C08.7', 'display:array-elements', f.loc(), 'an array shows all of its elements in order')
     return ('path enumeration of parse_all with modelled failures of the decode step, exception flow into the pass-through handler over the '
             'RTA call graph (%d raise functions), structural exits, reads of the --supress switch, the output chain. Decided: %s. Undecided: %s'
             % (len(funcs), '; '.join(ctx.decided), '; '.join(ctx.undecided)))
